@@ -593,6 +593,84 @@ def pad_selected_by_peer(S, e, ext, msg_types):
     return None
 
 
+def pad_may_be_constant(S, e):
+    """The Label operand of this `Label ^ Delta` may be a constant: its provenance (through tables, struct fields,
+    function results and parameters) contains a Label built from a literal - e.g. an entry of
+    `vec![Label(0); max_reg_count]` that no Input instruction overwrote.  Returns (body, block) of the constant."""
+    fg = S.fg
+    b = fg.bodies[e.body]
+    if e.block is None or e.idx != "t":
+        return None
+    t = b.blocks[e.block]["t"]
+    KINDS = ("copy", "ref", "base2field", "field2whole", "agg", "index", "alias", "mutarg", "mutarg2", "upvar", "closarg", "closret", "callarg", "ret", "field", "fieldw", "store", "load")
+    for a in t.get("args", []):
+        if a["k"] == "const":
+            if T_LABEL in a.get("ty", ""):
+                return (b, e.block)
+            continue
+        if a["p"]["ty"].lstrip("&") != T_LABEL:
+            continue
+        # names the pad goes by in the function that uses it (`input_labels`): where the flow passes a tuple that
+        # holds several label tables (the result of garble), only the slot built from a variable of that name is
+        # followed - the value-flow graph does not keep tuple slots apart across calls
+        fam_owner = b.owner
+        near = fg.backward(fg.operand_nodes(e.body, a), node_ok=lambda x: x[0] != "F" and fg.bodies[x[0]].owner == fam_owner,
+                           edge_ok=lambda e2: e2.kind in KINDS or (e2.kind == "call" and secmod.struct_edge(e2)), local=True)
+        want = set()
+        for x in near:
+            b3 = fg.bodies[x[0]]
+            if b3.locals[x[1]]["name"]:
+                want.add(b3.locals[x[1]]["name"])
+            if x[1] == 1 and x[2] not in (None, "*") and isinstance(x[2], int) and x[2] < len(b3.upvars):
+                want.add(b3.upvars[x[2]].replace("_ref__", ""))
+
+        def pad_edge(e2):
+            if e2.kind == "field2whole" and e2.src[0] != "F" and isinstance(e2.src[2], int):
+                b3 = fg.bodies[e2.src[0]]
+                ty3 = b3.locals[e2.src[1]]["ty"]
+                if ty3.startswith("(") and ty3.count("data_types::Label") >= 2:
+                    for d in defs_of(b3, e2.src[1]):
+                        r3 = d[2]
+                        if d[1] != "t" and r3["k"] == "agg" and r3.get("ak") == "tuple" and e2.src[2] < len(r3["ops"]):
+                            o3 = r3["ops"][e2.src[2]]
+                            rl3 = root_local(b3, o3) if o3["k"] != "const" else None
+                            return rl3 is not None and b3.locals[rl3]["name"] in want
+                    return False
+            return e2.kind in KINDS or (e2.kind == "call" and secmod.struct_edge(e2))
+        back = fg.backward(fg.operand_nodes(e.body, a), edge_ok=pad_edge, local=True)
+        locs = defaultdict(set)
+        for x in back:
+            if x[0] != "F" and x[0] in fg.bodies:
+                locs[x[0]].add(x[1])
+        for bk2, ls in locs.items():
+            b2 = fg.bodies[bk2]
+            if b2.owner.startswith(("polytune::mpc::fpre", "polytune::bench")) or "::tests::" in b2.owner:
+                continue
+            for bi2, blk in enumerate(b2.blocks):
+                for st in blk["s"]:
+                    if st["k"] != "assign" or st["p"]["l"] not in ls:
+                        continue
+                    r = st["r"]
+                    if r["k"] == "agg" and r.get("adt", "").endswith("data_types::Label") and r["ops"] and all(o["k"] == "const" for o in r["ops"]):
+                        return (b2, bi2)
+                    if r["k"] == "use" and r["o"]["k"] == "const" and T_LABEL in r["o"].get("ty", ""):
+                        return (b2, bi2)
+                tt = blk["t"]
+                if tt["k"] == "call" and tt["d"]["l"] in ls:
+                    cn = callee_names(tt)
+                    tl = cn[-1].rsplit("::", 1)[-1] if cn else ""
+                    if tl in ("from_elem", "repeat", "repeat_n", "resize") and any(a2["k"] == "const" and T_LABEL in a2.get("ty", "") for a2 in tt["args"]):
+                        return (b2, bi2)
+                    if tl in ("from_elem", "repeat", "repeat_n", "resize"):
+                        for a2 in tt["args"]:
+                            if a2["k"] != "const" and a2["p"]["ty"].lstrip("&") == T_LABEL:
+                                for d in defs_of(b2, a2["p"]["l"]):
+                                    r = d[2]
+                                    if d[1] != "t" and r["k"] == "agg" and r["ops"] and all(o["k"] == "const" for o in r["ops"]):
+                                        return (b2, bi2)
+    return None
+
+
 def rule_delta_declass(S, res):
     fg = S.fg
     pads = pad_nodes(S)
@@ -603,6 +681,7 @@ def rule_delta_declass(S, res):
     import r1
     msg_types = [r1.validated_types(s_)[1] or "" for s_ in S.recv_sites]
     peer_pads = []
+    const_pads = []
     seeds = []
     for k, b in engine_bodies(fg):
         for i, l in enumerate(b.locals):
@@ -653,6 +732,10 @@ def rule_delta_declass(S, res):
                     if pp:
                         peer_pads.append((e, pp))
                         return True   # a pad the peer can have reused does not hide Delta
+                    cp = pad_may_be_constant(S, e) if "data_types::Label" in n else None
+                    if cp:
+                        const_pads.append((e, cp))
+                        return True   # Label(0) ^ Delta is Delta
                     n_san["xor-with-own-key/label"] += 1
                     return False
         if e.kind == "bin" and e.info == "BitXor":
@@ -687,6 +770,11 @@ def rule_delta_declass(S, res):
             if peer_pads:
                 pe, (pcb, pn) = peer_pads[0]
                 extra = " (the key/label pad at %s is looked up with an index taken from a message: a peer can have the same pad applied twice, and the XOR of the two results is Delta)" % where(fg.bodies[pe.body], pcb)
+            elif const_pads:
+                pth = fg.path_to(reach, hit[0])
+                onp = [(pe, cp) for (pe, cp) in const_pads if any(pe is e_ for e_ in pth)]
+                pe, (cb_, cbi_) = (onp or const_pads)[0]
+                extra = " (the label that pads Delta at %s is taken from a table whose entries start as the constant built at %s: for an entry that was never overwritten with a fresh label the result is Delta itself)" % (where(fg.bodies[pe.body], pe.block), where(cb_, cbi_))
             res.bad("R6.4", inst, "the global key Delta can reach the payload of %r without passing through a hash, the AEAD, the OT sender or an XOR with an own key/label%s" % (lab, extra), fl(s.sp),
                     witness=[fg.describe_edge(e) for e in fg.path_to(reach, hit[0])[-10:]])
         else:
